@@ -20,11 +20,16 @@ def subsets(fmts):
     return out
 
 
+NFD_NAME = "cafe\u0301 \u212b.txt"   # decomposed accent + a singleton that NFC would replace
+
+
 def tracked(mode):
-    return "d/a.txt" if mode in ("nested", "twins") else "a.txt"
+    return "d/a.txt" if mode in ("nested", "twins") else (NFD_NAME if mode == "nfd-name" else "a.txt")
 
 
 def init_tree(mode):
+    if mode == "nfd-name":
+        return {NFD_NAME: A0, "b.txt": b"bystander"}
     if mode == "nested":
         return {"d": DIR, "d/a.txt": A0, "b.txt": b"bystander"}
     return {"a.txt": A0, "b.txt": b"bystander"}
@@ -220,6 +225,7 @@ def main(tier, seed):
                [("folder", ref.FORMATS_CLI, 3, 0), ("nested", ["c4", "md5", "sha1", "xxh64"], 3, 2),
                 ("sf", ["c4", "md5", "sha1", "xxh64"], 3, 2)]
     plan.append(("twins", ["md5", "xxh64"], 3 if tier == "quick" else 4, 1))
+    plan.append(("nfd-name", ["md5", "xxh64"], 3, 2))   # the tracked file's name is not in Unicode NFC form
     for mode, fmts, max_gen, max_edits in plan:
         fsets = subsets(fmts)
         meta = {"mode": mode, "fsets": fsets, "max_gen": max_gen, "max_edits": max_edits, "gens": 0, "edits": 0}
